@@ -22,7 +22,7 @@ import textwrap
 
 ROW_NAMES = {'record_a', 'record_b', 'star_fields', 'out_fields', 'up_fields', 'folded_fields', 'mutable_record', 'record', 'fields', 'src', 'result',
              'immutable_record', 'sort_entry', 'stable_entry', 'entry'}
-INPUTS = ['record_a', 'record_b']
+INPUTS = ['record_a', 'record_b', 'input_header', 'join_header']     # the header lists are what the iterators' get_header() returns: the caller's own lists
 PY_MUTATORS = {'append', 'extend', 'insert', 'remove', 'pop', 'clear', 'sort', 'reverse', '__setitem__', '__delitem__'}
 JS_MUTATORS = ['push', 'unshift', 'splice', 'pop', 'shift', 'sort', 'reverse', 'fill', 'copyWithin']
 SAMPLE_SELECTS = ['*', 'a.*', 'b.*', 'a1', '*, a1', 'a1, *', 'a1, a2', '*, *', 'a.*, b.*', 'a1 as x', 'a2, a1 as x', 'COUNT(*)', 'a1, COUNT(*)', '* , a.*', ' * ']
@@ -332,7 +332,86 @@ def scan_python(engine_path, repo_py_dir):
         for w in list(flow.written):
             if not w.startswith(cls + '.'):
                 flow.bind('%s.record' % cls, 'alias', w)
+    scan_py_header_flow(tree, flow)
     return flow
+
+
+def py_returns_kind(tree, fname):
+    """'fresh' when every `return` of the module-level function gives None or a list the function built itself; else ('alias', parameter) / 'unknown'"""
+    for fn in tree.body:
+        if isinstance(fn, ast.FunctionDef) and fn.name == fname:
+            params = [a.arg for a in fn.args.args]
+            local = {}
+            for n in ast.walk(fn):
+                if isinstance(n, ast.Assign) and len(n.targets) == 1 and isinstance(n.targets[0], ast.Name):
+                    local.setdefault(n.targets[0].id, []).append(classify_py(n.value))
+            worst = ('fresh', '')
+            for n in ast.walk(fn):
+                if isinstance(n, ast.Return) and n.value is not None:
+                    k, src = classify_py(n.value)
+                    if k == 'alias':
+                        if src in params:
+                            return ('alias', src)
+                        ks = local.get(src, [('unknown', src)])
+                        if any(kk not in ('fresh', 'copy') for kk, _s in ks):
+                            return ('unknown', src)
+                    elif k not in ('fresh', 'copy'):
+                        return ('unknown', src)
+            return worst
+    return ('unknown', fname)
+
+
+def classify_header_arg(tree, fn, node):
+    """kind of the object handed to set_header, relative to input_header / join_header"""
+    if isinstance(node, ast.IfExp):
+        a, b = classify_header_arg(tree, fn, node.body), classify_header_arg(tree, fn, node.orelse)
+        for k in ('unknown', 'alias'):
+            for x in (a, b):
+                if x[0] == k:
+                    return x
+        return a if a[0] == 'copy' else b
+    k, src = classify_py(node)
+    if k == 'alias' and src not in ('input_header', 'join_header'):
+        # a local: look at what it is assigned from inside the function
+        kinds = []
+        for n in ast.walk(fn):
+            if isinstance(n, ast.Assign) and len(n.targets) == 1 and isinstance(n.targets[0], ast.Name) and n.targets[0].id == src:
+                v = n.value
+                if isinstance(v, ast.Call) and isinstance(v.func, ast.Name):
+                    rk = py_returns_kind(tree, v.func.id)
+                    if rk[0] == 'alias':
+                        # returns one of its parameters: which argument is that?
+                        for f2 in tree.body:
+                            if isinstance(f2, ast.FunctionDef) and f2.name == v.func.id:
+                                ps = [a.arg for a in f2.args.args]
+                                i = ps.index(rk[1])
+                                kinds.append(classify_header_arg(tree, fn, v.args[i]) if i < len(v.args) else ('unknown', src))
+                    else:
+                        kinds.append(rk)
+                else:
+                    kinds.append(classify_header_arg(tree, fn, v) if not (isinstance(v, ast.Name) and v.id == src) else ('unknown', src))
+        if not kinds:
+            return ('unknown', src)
+        for kk in ('unknown', 'alias'):
+            for x in kinds:
+                if x[0] == kk:
+                    return x
+        return kinds[0]
+    return (k, src)
+
+
+def scan_py_header_flow(tree, flow):
+    found = False
+    for fn in tree.body:
+        if isinstance(fn, ast.FunctionDef) and fn.name == 'shallow_parse_input_query':
+            for n in ast.walk(fn):
+                if isinstance(n, ast.Call) and isinstance(n.func, ast.Attribute) and n.func.attr == 'set_header' and len(n.args) == 1:
+                    found = True
+                    k, src = classify_header_arg(tree, fn, n.args[0])
+                    flow.bind('writer_header', k if k in ('alias', 'copy', 'fresh') else 'unknown', src)
+    if not found:
+        flow.bind('writer_header', 'unknown', 'no set_header call found in shallow_parse_input_query')
+    flow.write('writer_header')
 
 
 JS_ID = r'[A-Za-z_$][A-Za-z0-9_$]*'
@@ -499,7 +578,65 @@ def scan_js(js_path, node_cmd='node'):
                 for p_ in ('record', 'stable_entry'):
                     flow.bind('%s.%s' % (cls, p_), 'alias', 'out_fields' if w == 'sort_entry' else w)
     flow.written = [w for w in flow.written if w != 'sort_entry']
+    scan_js_header_flow(code, flow)
     return flow
+
+
+def classify_js_header_arg(code, body, e):
+    e = e.strip()
+    m = re.fullmatch(r'(.+?)\?(.+):(.+)', e)
+    if m:
+        a, b = classify_js_header_arg(code, body, m.group(2)), classify_js_header_arg(code, body, m.group(3))
+        for k in ('unknown', 'alias'):
+            for x in (a, b):
+                if x[0] == k:
+                    return x
+        return a if a[0] == 'copy' else b
+    k, src = classify_js(e)
+    if k == 'alias' and src not in ('input_header', 'join_header'):
+        kinds = []
+        for m in re.finditer(r'(?:let|var|const)?\s*%s\s*=\s*([^;]+);' % re.escape(src), body):
+            rhs = m.group(1).strip()
+            mc = re.match(r'(?:await\s+)?(%s)\(' % JS_ID, rhs)
+            if mc:
+                fm = re.search(r'function %s\([^)]*\) \{(.*?)\n\}' % mc.group(1), code, re.S)
+                if not fm:
+                    kinds.append(('unknown', rhs[:40]))
+                    continue
+                fb = fm.group(1)
+                ok = True
+                for r in re.finditer(r'return\s+([^;]+);', fb):
+                    rv = r.group(1).strip()
+                    if rv == 'null':
+                        continue
+                    if re.fullmatch(JS_ID, rv) and re.search(r'(?:let|var|const)\s+%s\s*=\s*\[' % re.escape(rv), fb):
+                        continue
+                    ok = False
+                kinds.append(('fresh', '') if ok else ('unknown', mc.group(1)))
+            else:
+                kinds.append(classify_js_header_arg(code, body, rhs))
+        if not kinds:
+            return ('unknown', src)
+        for kk in ('unknown', 'alias'):
+            for x in kinds:
+                if x[0] == kk:
+                    return x
+        return kinds[0]
+    return (k, src)
+
+
+def scan_js_header_flow(code, flow):
+    m = re.search(r'async function shallow_parse_input_query\(([^)]*)\) \{(.*?)\n\}', code, re.S)
+    found = False
+    if m:
+        body = m.group(2)
+        for c in re.finditer(r'\.set_header\(([^;]*)\);', body):
+            found = True
+            k, src = classify_js_header_arg(code, body, c.group(1))
+            flow.bind('writer_header', k if k in ('alias', 'copy', 'fresh') else 'unknown', src)
+    if not found:
+        flow.bind('writer_header', 'unknown', 'no set_header call found in shallow_parse_input_query')
+    flow.write('writer_header')
 
 
 def lean_str(s):
